@@ -4,9 +4,9 @@ package main
 
 import (
 	"fmt"
-	"os"
 	"go/token"
 	"go/types"
+	"os"
 	"strings"
 
 	"golang.org/x/tools/go/ssa"
@@ -948,7 +948,6 @@ func ruleV4h(c *Ctx) *RuleResult {
 	r.Instances = n
 	return r
 }
-
 
 // fieldChain: v is a load of root.f1.f2…: returns the root value and the fields.
 func fieldChainOf(v ssa.Value) (ssa.Value, []*types.Var) {
